@@ -56,12 +56,24 @@ type oracles struct {
 	// C12
 	results map[*Client]int
 	stateSet map[uint64]struct{}
+	// C07
+	lastCCID  uint64
+	latest    *memView
+	memByCCID map[uint64]*memView
+	lastMem   []*memView // last membership observed per host
+	everRemoved map[uint64]uint64 // replica id -> ccid at which it was seen removed
+	maxCommitted uint64
+	abandoned []*pendingReq
+	snapshotsDone int
 }
 
 func newOracles(s *Sim) *oracles {
 	o := &oracles{s: s, appliedAt: map[uint64]appliedRec{}, widCount: map[*SMInst]map[uint64]int{},
 		leaderOfTerm: map[uint64]uint64{}, results: map[*Client]int{}, stateSet: map[uint64]struct{}{}}
 	// the network never duplicates for C01 (its quantifier excludes it)
+	o.memByCCID = map[uint64]*memView{}
+	o.everRemoved = map[uint64]uint64{}
+	o.lastMem = make([]*memView, s.cfg.Hosts)
 	o.allowDup = s.ctx.Property != "C01"
 	for i := 0; i < s.cfg.Hosts; i++ {
 		o.ledgers = append(o.ledgers, &ledger{voteOf: map[uint64]uint64{}})
@@ -170,8 +182,10 @@ func (o *oracles) SMUpdate(i *SMInst, index uint64, cmd []byte, res sm.Result) {
 		o.widCount[i] = wc
 	}
 	wc[wid]++
-	if wc[wid] > 1 {
-		s.ctx.Violate("C11", "dup-apply", "write id %d delivered twice to the same state machine incarnation on replica %d", wid, i.ReplicaID)
+	if wc[wid] > 1 && !o.allowDup {
+		// without network duplication and without client retries a proposal is in
+		// the log at most once, so it reaches a state machine at most once
+		s.ctx.Violate("C01", "dup-apply", "write id %d delivered twice to the same state machine incarnation on replica %d", wid, i.ReplicaID)
 	}
 	s.ctx.Ev("apply", uint64(i.Host), index, wid)
 }
@@ -235,6 +249,7 @@ func (o *oracles) peek(h *Host) (raft.VerifState, bool) {
 
 func (o *oracles) afterStep() {
 	s := o.s
+	o.pollAbandoned()
 	var sig uint64 = 14695981039346656037
 	for _, h := range s.hosts {
 		st, ok := o.peek(h)
@@ -250,10 +265,17 @@ func (o *oracles) afterStep() {
 				s.ctx.Count("probe.leader_elected", 1)
 			}
 		}
+		if st.Committed > o.maxCommitted {
+			o.maxCommitted = st.Committed
+		}
+		quiet := o.hostQuiet(h)
 		if o.checkRecovery[h.id] {
 			if fst, ok := o.peekFull(h); ok {
 				o.checkRecovered(h, fst)
 			}
+		}
+		if quiet {
+			o.observeMembership(h, st)
 		}
 		lag := st.Committed - st.Applied
 		if lag > 3 {
@@ -268,6 +290,122 @@ func (o *oracles) afterStep() {
 		s.ctx.State(sig)
 		s.stateSig ^= sig * 0x9e3779b97f4a7c15
 	}
+}
+
+// ---------------- C07 / C18 membership ----------------
+
+func (o *oracles) observeMembership(h *Host, st raft.VerifState) {
+	s := o.s
+	r, ok := h.nh.VerifGetReplica(shardID)
+	if !ok || !r.Initialized() {
+		return
+	}
+	m := r.Membership()
+	if m.ConfigChangeId == 0 && len(m.Addresses) == 0 {
+		return
+	}
+	prev := o.lastMem[h.id]
+	if prev != nil && prev.ccid == m.ConfigChangeId {
+		o.checkRole(h, st, prev, r.Stopped())
+		return
+	}
+	v := toMemView(m, h.id)
+	o.lastMem[h.id] = v
+	if v.ccid > o.lastCCID {
+		o.lastCCID = v.ccid
+		o.latest = v
+		o.s.reconcileMembership(v)
+	}
+	if c, ok := o.memByCCID[v.ccid]; ok {
+		if !c.equal(v) {
+			s.ctx.Violate("C07", "membership-divergence", "replicas %d and %d disagree on the membership after config change %d: %s vs %s", c.host+1, h.id+1, v.ccid, c, v)
+		}
+	} else {
+		o.memByCCID[v.ccid] = v
+		s.ctx.Count("probe.membership_versions", 1)
+	}
+	// invariants of C07 on every membership ever observed
+	if len(v.voters) == 0 {
+		s.ctx.Violate("C07", "no-voter", "membership without a voting member: %s", v)
+	}
+	for id := range v.removed {
+		if _, ok := v.voters[id]; ok {
+			s.ctx.Violate("C07", "removed-is-member", "replica %d is both removed and a member: %s", id, v)
+		}
+		if _, ok := v.nonVoting[id]; ok {
+			s.ctx.Violate("C07", "removed-is-member", "replica %d is both removed and a member: %s", id, v)
+		}
+		if _, ok := v.witnesses[id]; ok {
+			s.ctx.Violate("C07", "removed-is-member", "replica %d is both removed and a member: %s", id, v)
+		}
+		if _, seen := o.everRemoved[id]; !seen {
+			o.everRemoved[id] = v.ccid
+		}
+	}
+	for id, at := range o.everRemoved {
+		if v.ccid > at && !v.removed[id] {
+			s.ctx.Violate("C07", "removed-readmitted", "replica %d was removed by change %d but membership %s no longer records it as removed", id, at, v)
+		}
+	}
+	addrs := map[string]uint64{}
+	for _, mm := range []map[uint64]string{v.voters, v.nonVoting, v.witnesses} {
+		for id, a := range mm {
+			if other, dup := addrs[a]; dup && other != id {
+				s.ctx.Violate("C07", "address-added-twice", "address %s belongs to replicas %d and %d: %s", a, other, id, v)
+			}
+			addrs[a] = id
+		}
+	}
+	if prev != nil && v.ccid > prev.ccid {
+		for id := range prev.voters {
+			if _, ok := v.nonVoting[id]; ok {
+				s.ctx.Violate("C07", "kind-change", "replica %d went from voting to non-voting: %s -> %s", id, prev, v)
+			}
+			if _, ok := v.witnesses[id]; ok {
+				s.ctx.Violate("C07", "kind-change", "replica %d went from voting to witness: %s -> %s", id, prev, v)
+			}
+		}
+		for id := range prev.witnesses {
+			if _, ok := v.voters[id]; ok {
+				s.ctx.Violate("C07", "kind-change", "witness %d became a voting member: %s -> %s", id, prev, v)
+			}
+			if _, ok := v.nonVoting[id]; ok {
+				s.ctx.Violate("C07", "kind-change", "witness %d became a non-voting member: %s -> %s", id, prev, v)
+			}
+		}
+		for id := range prev.nonVoting {
+			if _, ok := v.witnesses[id]; ok {
+				s.ctx.Violate("C07", "kind-change", "non-voting %d became a witness: %s -> %s", id, prev, v)
+			}
+		}
+	}
+	o.checkRole(h, st, v, r.Stopped())
+}
+
+// checkRole: only regular voting members campaign or lead (C18).
+func (o *oracles) checkRole(h *Host, st raft.VerifState, v *memView, stopped bool) {
+	if stopped {
+		return
+	}
+	switch st.Role {
+	case "Leader", "Candidate", "PreVoteCandidate":
+		if _, ok := v.voters[h.replicaID]; !ok {
+			kind := "not a member"
+			if _, ok := v.nonVoting[h.replicaID]; ok {
+				kind = "a non-voting member"
+			} else if _, ok := v.witnesses[h.replicaID]; ok {
+				kind = "a witness"
+			} else if v.removed[h.replicaID] {
+				kind = "removed"
+			}
+			o.s.ctx.Violate("C18", "non-voter-campaigns", "replica %d is %s in its own applied membership (%s) but its role is %s in term %d", h.replicaID, kind, v, st.Role, st.Term)
+		}
+	}
+}
+
+func (o *oracles) onSnapshotCompleted(h *Host, index uint64) {
+	o.snapshotsDone++
+	o.s.ctx.Count("probe.snapshot_request_completed", 1)
 }
 
 // ---------------- C04 persist before send ----------------
@@ -380,6 +518,40 @@ func (o *oracles) checkRecovered(h *Host, st raft.VerifState) {
 
 func (o *oracles) onDeliver(from, to int, mb pb.MessageBatch) {}
 
+// pendingReq is an abandoned request that must still terminate (C12).
+type pendingReq struct {
+	rs      *dragonboat.RequestState
+	host    *Host
+	hinc    int
+	issued  int64
+	timeout int64
+	results int
+}
+
+func (o *oracles) pollAbandoned() {
+	s := o.s
+	for _, p := range o.abandoned {
+		if p.host.inc != p.hinc {
+			continue
+		}
+		select {
+		case r := <-p.rs.ResultC():
+			if r.Committed() && !r.Completed() {
+				continue
+			}
+			p.results++
+			if p.results > 1 {
+				s.ctx.Violate("C12", "second-result", "abandoned request delivered a second terminal result")
+			}
+		default:
+			if p.results == 0 && p.host.up && !s.faultsOn && p.host.ticks-p.issued > p.timeout+200 {
+				s.ctx.Violate("C12", "no-terminal-result", "request has no result %d ticks after it was issued (timeout %d)", p.host.ticks-p.issued, p.timeout)
+				p.results = -1000
+			}
+		}
+	}
+}
+
 // ---------------- C12 / C01 ----------------
 
 func (o *oracles) onAccepted(c *Client) { o.results[c] = 0 }
@@ -435,11 +607,11 @@ func (o *oracles) converged() bool {
 	var applied uint64
 	first := true
 	for _, h := range s.hosts {
-		if !h.up || h.removed {
-			if !h.removed {
-				return false
-			}
+		if !h.joined || h.removed {
 			continue
+		}
+		if !h.up || !h.started || h.stopped {
+			return false
 		}
 		st, ok := o.peek(h)
 		if !ok {
@@ -454,20 +626,63 @@ func (o *oracles) converged() bool {
 			return false
 		}
 	}
-	return true
+	return !first
 }
 
-func (o *oracles) livenessFailed() {
+func (o *oracles) livenessFailed(what string) {
 	s := o.s
-	desc := ""
+	desc := what + ": "
 	for _, h := range s.hosts {
 		st, ok := o.peek(h)
 		desc += fmt.Sprintf("[h%d up=%t ok=%t role=%s term=%d leader=%d commit=%d applied=%d last=%d] ", h.id+1, h.up, ok, st.Role, st.Term, st.LeaderID, st.Committed, st.Applied, st.LastIndex)
 	}
 	for _, c := range s.clients {
-		desc += fmt.Sprintf("[c%d phase=%d finalLeft=%d] ", c.id, c.phase, c.finalLeft)
+		desc += fmt.Sprintf("[c%d phase=%d finalLeft=%d", c.id, c.phase, c.finalLeft)
+		if c.phase == 1 && c.host != nil {
+			desc += fmt.Sprintf(" on=h%d inc=%d/%d issuedTick=%d hostTicks=%d write=%t", c.host.id+1, c.hinc, c.host.inc, c.issuedTick, c.host.ticks, c.op.write)
+		}
+		desc += "] "
 	}
 	s.ctx.Violate("C17", "no-progress", "fair fault-free phase of %d ticks per host did not finish: %s tasks=%s", int(s.cfg.ElectionRTT)*60, desc, s.ex.Describe())
+}
+
+// stableLeader: every running member knows the same leader, which is itself
+// in the leader role in that term.
+func (o *oracles) stableLeader() bool {
+	s := o.s
+	var leader, term uint64
+	n := 0
+	for _, h := range s.hosts {
+		if !h.joined || h.removed {
+			continue
+		}
+		if !h.up || !h.started || h.stopped {
+			s.ctx.Tracef("stableLeader: h%d not running up=%t started=%t stopped=%t", h.id+1, h.up, h.started, h.stopped)
+			return false
+		}
+		st, ok := o.peek(h)
+		if !ok || st.LeaderID == 0 {
+			s.ctx.Tracef("stableLeader: h%d no leader ok=%t", h.id+1, ok)
+			return false
+		}
+		if n == 0 {
+			leader, term = st.LeaderID, st.Term
+		} else if st.LeaderID != leader || st.Term != term {
+			s.ctx.Tracef("stableLeader: h%d disagrees", h.id+1)
+			return false
+		}
+		n++
+	}
+	if n == 0 {
+		return false
+	}
+	for _, h := range s.hosts {
+		if h.replicaID == leader {
+			st, ok := o.peek(h)
+			return ok && st.Role == "Leader" && st.Term == term
+		}
+	}
+	return false
 }
 
 // ---------------- final checks ----------------
@@ -491,7 +706,7 @@ func (o *oracles) finalChecks() {
 	}
 	byApplied := map[uint64]stRec{}
 	for _, h := range s.hosts {
-		if !h.up || h.sm == nil {
+		if !h.up || h.sm == nil || h.role == roleWitness || !h.started || h.removed {
 			continue
 		}
 		st, ok := o.peek(h)
